@@ -1,6 +1,7 @@
 import NeoFS.Generated.AccessIR
 import NeoFS.Model.AccessExpect
 import NeoFS.Lemmas.Access
+import NeoFS.Lemmas.AccessVal
 /-! Definitions used by the C03 property theorems (decision functions run on the regenerated method table). -/
 namespace NeoFS.Props.C03
 open NeoFS.Access NeoFS.Access.Expect NeoFS.Generated.Access
@@ -37,5 +38,39 @@ def verifyOK (m : MethodIR) : Bool :=
         (outs (maskVal mask) m.prog false).all (fun r => r.1 != .retT)
   else true
 
+
+/-- atoms of a method that hold under an arbitrary valuation of atom indices -/
+def holdsV (atoms : List String) (v : Val) : Holds :=
+  fun p => (atoms.zipIdx).any (fun ai => p ai.1 && v ai.2)
+
+/-- every atom index used by the program is an entry of the method's atom table -/
+def atomsWF (m : MethodIR) : Bool := (atomsIn m.prog).all (fun w => decide (w < m.atoms.length))
+
+theorem zipIdx_snd_lt {α : Type} (l : List α) (k : Nat) (ai : α × Nat) (h : ai ∈ l.zipIdx k) : ai.2 < k + l.length := by
+  induction l generalizing k with
+  | nil => simp at h
+  | cons x xs ih =>
+    simp only [List.zipIdx_cons, List.mem_cons] at h
+    rcases h with rfl | h
+    · simp
+    · have := ih (k + 1) h
+      simp only [List.length_cons]; omega
+
+theorem holdsOf_maskOf (atoms : List String) (v : Val) :
+    holdsOf atoms (maskOf v atoms.length) = holdsV atoms v := by
+  funext p
+  unfold holdsOf holdsV
+  rw [Bool.eq_iff_iff]
+  simp only [List.any_eq_true]
+  constructor
+  · rintro ⟨ai, hai, h⟩
+    have hlt : ai.2 < atoms.length := by simpa using zipIdx_snd_lt atoms 0 ai hai
+    rw [testBit_maskOf v atoms.length ai.2 hlt] at h
+    exact ⟨ai, hai, h⟩
+  · rintro ⟨ai, hai, h⟩
+    have hlt : ai.2 < atoms.length := by simpa using zipIdx_snd_lt atoms 0 ai hai
+    refine ⟨ai, hai, ?_⟩
+    rw [testBit_maskOf v atoms.length ai.2 hlt]
+    exact h
 
 end NeoFS.Props.C03
